@@ -408,7 +408,7 @@ def _execute(ctx, case, seed, data, subject, drv=None, kw=None, input_bytes=None
     sectors = n_in // 512 + 6 * (A // 512) + 64
     budget = 20 * bsteps + 1024 * sectors + 20000
     mem_budget = (32 << 20) + 16 * (n_in + 6 * A)
-    with ctx.watch(case, 60):
+    with ctx.watch(case, 300):
         outcome, steps, peak = _run_metered(drv or seed["drv"], data, kw if kw is not None else seed["kw"], budget)
         ctx.maxi("steps_over_budget_permille", int(1000 * steps / budget))
         ctx.maxi("peak_over_budget_permille", int(1000 * peak / mem_budget))
